@@ -117,7 +117,9 @@ class Sugar:
         self.text, self.trans, self.level, self.cls, self.kind = text, trans, level, cls, kind
 
 
-def sugar(rnd, d: int = 0, allow_bool: bool = True) -> Sugar:
+def sugar(rnd, d: int = 0, allow_bool: bool = True, multiline: bool = False) -> Sugar:
+    """multiline: subprocess words may be separated by a line end; '\n=col' stands for a line end followed by as many
+    blanks as the column the previous word ended in (expand with expand_columns once the start column is known)"""
     kinds = ["env", "env", "envexpr", "subproc", "subproc", "search", "pstr", "help", "pfstr", "pconcat"]
     if allow_bool and d == 0:
         kinds += ["and", "or"]
@@ -155,6 +157,8 @@ def sugar(rnd, d: int = 0, allow_bool: bool = True) -> Sugar:
                 words.append(inner.text)
                 trans.append(inner.trans)
         sep = rnd.choice([" ", " ", "  "])
+        if multiline and d == 0 and len(words) > 1 and rnd.random() < 0.2:
+            sep = rnd.choice(["\n", "\n  ", "\n=col", "\n=col", " \n"])
         pad = rnd.choice(["", "", " "])
         return Sugar(o + pad + sep.join(words) + pad + c, f"__xonsh__.{fn}({', '.join(trans)})", "atom", "Call", o + ".." + c)
     if k == "search":
@@ -206,6 +210,17 @@ def sugar(rnd, d: int = 0, allow_bool: bool = True) -> Sugar:
     ops = [operand() for _ in range(n)]
     sp = rnd.choice([" ", " ", "  "])
     return Sugar(f"{sp}{op_x}{sp}".join(o[0] for o in ops), f" {op_p} ".join(o[1] for o in ops), "bool", "BoolOp", op_x)
+
+
+def expand_columns(text: str, start_col: int) -> str:
+    """replace every '\n=col' marker by a line end plus blanks up to the column where the text before it ended"""
+    out = ""
+    for i, part in enumerate(text.split("\n=col")):
+        if i:
+            col = len(out) - (out.rfind("\n") + 1) + (start_col if "\n" not in out else 0)
+            out += "\n" + " " * col
+        out += part
+    return out
 
 
 def sugar_subproc(rnd, d):
